@@ -826,6 +826,79 @@ def _class_param(fi):
     return None
 
 
+_TABLE_WRITERS = ("append", "add", "update", "extend", "insert", "setdefault", "pop", "clear", "popitem", "remove", "discard", "__setitem__", "__delitem__", "appendleft")
+
+
+def never_rebound_display(mod, name, v):
+    """is `name` (a module-level or class-level name of module `mod`, bound to `v`) a table of the program itself: bound once
+    to a display (or a dict / frozenset / tuple / MappingProxyType made from one), and nothing in the module stores into it,
+    changes it in place or binds the name again?"""
+    v = strip_cast(v)
+    while isinstance(v, ast.Call) and A.call_attr(v) in ("dict", "frozenset", "tuple", "MappingProxyType", "OrderedDict") and len(v.args) == 1 and not v.keywords:
+        v = strip_cast(v.args[0])
+    if not isinstance(v, (ast.Dict, ast.Set, ast.Tuple, ast.List)) and not (isinstance(v, ast.Call) and A.call_attr(v) in ("dict", "frozenset") and not v.args):
+        return False
+    n_bind = 0
+    for n in ast.walk(mod.tree):
+        if isinstance(n, ast.Global) and name in n.names:
+            return False
+        if isinstance(n, (ast.Name, ast.Attribute)) and (n.id if isinstance(n, ast.Name) else n.attr) == name and isinstance(n.ctx, (ast.Store, ast.Del)):
+            n_bind += 1
+        elif isinstance(n, ast.Subscript) and isinstance(n.ctx, (ast.Store, ast.Del)) and isinstance(n.value, (ast.Name, ast.Attribute)) \
+                and (n.value.id if isinstance(n.value, ast.Name) else n.value.attr) == name:
+            return False
+        elif isinstance(n, ast.Call) and isinstance(n.func, ast.Attribute) and n.func.attr in _TABLE_WRITERS and isinstance(n.func.value, (ast.Name, ast.Attribute)) \
+                and (n.func.value.id if isinstance(n.func.value, ast.Name) else n.func.value.attr) == name:
+            return False
+        elif isinstance(n, ast.Call) and isinstance(n.func, ast.Name) and n.func.id in ("setattr", "delattr") and len(n.args) >= 2 and A.const_str(n.args[1]) in (name, None):
+            return False
+    if n_bind != 1:
+        return False
+    # every use of the name only looks into the table: an alias, an argument of a call, a returned reference could be
+    # written through somewhere this does not see
+    def is_it(x):
+        return isinstance(x, (ast.Name, ast.Attribute)) and (x.id if isinstance(x, ast.Name) else x.attr) == name and isinstance(x.ctx, ast.Load)
+
+    readers = ("get", "items", "keys", "values", "__contains__", "__getitem__", "__len__", "__iter__", "copy", "index", "count")
+    for par in ast.walk(mod.tree):
+        for ch in ast.iter_child_nodes(par):
+            if not is_it(ch):
+                continue
+            ok = (isinstance(par, ast.Subscript) and par.value is ch and isinstance(par.ctx, ast.Load)) \
+                or (isinstance(par, ast.Attribute) and par.value is ch and par.attr in readers) \
+                or (isinstance(par, ast.Compare) and ch in par.comparators and all(isinstance(o, (ast.In, ast.NotIn)) for o in par.ops)) \
+                or (isinstance(par, (ast.For, ast.comprehension)) and par.iter is ch) \
+                or (isinstance(par, ast.Call) and isinstance(par.func, ast.Name) and par.func.id in ("len", "isinstance", "sorted", "dict", "list", "tuple", "set", "frozenset", "bool", "iter", "enumerate", "any", "all")
+                    and ch in par.args) \
+                or (isinstance(par, ast.Starred) and par.value is ch) \
+                or (isinstance(par, ast.Dict) and ch in par.values and par.keys[par.values.index(ch)] is None)
+            if not ok:
+                return False
+    return True
+
+
+def _kept_default(fi, name):
+    """is `name` a parameter of `fi` whose default value is a mutable object (made once, when the function is defined) that
+    the function itself changes in place - what one call leaves in it, the next call finds"""
+    a = fi.node.args
+    pos = list(getattr(a, "posonlyargs", [])) + list(a.args)
+    pairs = list(zip(pos[len(pos) - len(a.defaults):], a.defaults)) + [(p_, d_) for (p_, d_) in zip(a.kwonlyargs, a.kw_defaults) if d_ is not None]
+    dflt = next((d_ for (p_, d_) in pairs if p_.arg == name), None)
+    if dflt is None or _frozen_table(dflt):
+        return False
+    for n in ast.walk(fi.node):
+        if isinstance(n, ast.Subscript) and isinstance(n.ctx, (ast.Store, ast.Del)) and isinstance(n.value, ast.Name) and n.value.id == name:
+            return True
+        if isinstance(n, ast.Attribute) and isinstance(n.ctx, (ast.Store, ast.Del)) and isinstance(n.value, ast.Name) and n.value.id == name:
+            return True
+        if isinstance(n, ast.Call) and isinstance(n.func, ast.Attribute) and isinstance(n.func.value, ast.Name) and n.func.value.id == name \
+                and n.func.attr in ("append", "add", "update", "extend", "insert", "setdefault", "pop", "clear", "popitem", "remove", "discard", "__setitem__", "appendleft"):
+            return True
+        if isinstance(n, ast.AugAssign) and isinstance(n.target, ast.Name) and n.target.id == name:
+            return True
+    return False
+
+
 def outliving_state_reads(fa, expr, at, _depth=2, _seen=()):
     """What the value of `expr` (at CFG node `at`) is read from that outlives the call and can be rebound or
     changed by another one: names the function declares global / nonlocal and reads before it has assigned them,
@@ -849,12 +922,14 @@ def outliving_state_reads(fa, expr, at, _depth=2, _seen=()):
         kind, _, name = a.partition(":")
         if kind == "local" and name in declared:
             out.add(name)
+        elif kind == "param" and _kept_default(fa.fi, name):
+            out.add("the default value of the parameter `%s` of %s (made once, changed by the calls)" % (name, fa.fi.qual))
         elif kind == "global":
             if name in mod.functions or name in mod.classes or name in mod.imports:
                 continue
             if name in declared or name in rebound:
                 out.add(name)
-            elif name in mod.assigns and not _frozen_table(mod.assigns[name]):
+            elif name in mod.assigns and not _frozen_table(mod.assigns[name]) and not never_rebound_display(mod, name, mod.assigns[name]):
                 out.add(name)
         elif kind == "attr":
             parts = name.split(".")
